@@ -1381,3 +1381,189 @@ func sharedPoolBufferReset(c *an.Ctx, rule string, prefixes ...string) (examined
 	}
 	return examined
 }
+
+// sharedRetainedArgs is the hand-off rule: when a function keeps a pointer
+// argument beyond its return (a closure that escapes captures it, or it is
+// stored into a longer-lived object), the caller must not modify the pointed-to
+// object afterwards; otherwise the instance built earlier silently sees the
+// later values (the configuration of the last server for every server).  It
+// returns the number of retaining call sites examined.
+func sharedRetainedArgs(c *an.Ctx, rule string, prefixes ...string) (examined int) {
+	// summaries: parameter indices a function retains
+	retains := map[*ssa.Function]map[int]bool{}
+	for _, fn := range c.AllFns {
+		if fn.Blocks == nil || c.IsTestFile(fn.Pos()) {
+			continue
+		}
+		for i, pa := range fn.Params {
+			if _, isPtr := pa.Type().Underlying().(*types.Pointer); !isPtr || pa.Referrers() == nil {
+				continue
+			}
+			kept := false
+			for _, r := range *pa.Referrers() {
+				switch u := r.(type) {
+				case *ssa.MakeClosure:
+					// a closure over the parameter that is not simply deferred / called in place
+					if u.Referrers() != nil {
+						for _, rr := range *u.Referrers() {
+							switch x := rr.(type) {
+							case *ssa.Defer:
+							case *ssa.Call:
+								if x.Call.Value != ssa.Value(u) {
+									kept = true // passed on as an argument
+								}
+							default:
+								kept = true
+							}
+						}
+					}
+				case *ssa.Store:
+					if u.Val == ssa.Value(pa) {
+						if _, toLocal := u.Addr.(*ssa.Alloc); !toLocal {
+							kept = true
+						} else if al := u.Addr.(*ssa.Alloc); al.Heap {
+							// spilled because a closure captures the variable
+							for _, rr := range *al.Referrers() {
+								if mc, ok := rr.(*ssa.MakeClosure); ok && mc.Referrers() != nil {
+									for _, r3 := range *mc.Referrers() {
+										if _, isDefer := r3.(*ssa.Defer); !isDefer {
+											kept = true
+										}
+									}
+								}
+							}
+						}
+					}
+				}
+			}
+			if kept {
+				if retains[fn] == nil {
+					retains[fn] = map[int]bool{}
+				}
+				retains[fn][i] = true
+			}
+		}
+	}
+	for _, fn := range c.AllFns {
+		if fn.Blocks == nil || c.IsTestFile(fn.Pos()) {
+			continue
+		}
+		k := an.FnKey(fn)
+		in := false
+		for _, p := range prefixes {
+			if strings.HasPrefix(k, p) {
+				in = true
+			}
+		}
+		if !in {
+			continue
+		}
+		for _, call := range an.Calls(fn) {
+			callee := an.StaticCallee(call)
+			if callee == nil || retains[callee] == nil {
+				continue
+			}
+			args := call.Common().Args
+			for i := range retains[callee] {
+				if i >= len(args) {
+					continue
+				}
+				al, ok := args[i].(*ssa.Alloc)
+				if !ok || al.Referrers() == nil {
+					continue
+				}
+				examined++
+				c.Analysed(k)
+				key := fmt.Sprintf("%s hands %s to %s", k, an.TypeName(al.Type()), an.FnKey(callee))
+				bad := ""
+				for _, r := range *al.Referrers() {
+					fa, ok := r.(*ssa.FieldAddr)
+					if !ok || fa.Referrers() == nil {
+						continue
+					}
+					for _, rr := range *fa.Referrers() {
+						if st, ok := rr.(*ssa.Store); ok && st.Addr == ssa.Value(fa) && an.CanReachAvoiding(call, st, al) {
+							_, f, _, _ := an.FieldOf(fa)
+							bad = fmt.Sprintf("field %s is written at %s after the call", f, c.Pos(st.Pos()))
+						}
+					}
+				}
+				if bad != "" {
+					c.Bad(rule, key, call.Pos(), "the callee keeps this object (a closure it returns or stores reads it later) and %s: every instance built from it sees the last values written", bad)
+				} else {
+					c.Ok(rule, key, call.Pos(), "the object is not modified after the hand-off")
+				}
+			}
+		}
+	}
+	return examined
+}
+
+// hasRefFields reports whether struct type t has, directly or in nested
+// structs and arrays, fields through which two copies would share memory
+// (slices, maps, pointers, channels, interfaces, functions).
+func hasRefFields(t types.Type, depth int) bool {
+	if depth > 6 {
+		return true
+	}
+	switch u := t.Underlying().(type) {
+	case *types.Struct:
+		for i := 0; i < u.NumFields(); i++ {
+			if hasRefFields(u.Field(i).Type(), depth+1) {
+				return true
+			}
+		}
+		return false
+	case *types.Array:
+		return hasRefFields(u.Elem(), depth+1)
+	case *types.Basic:
+		return false
+	}
+	return true
+}
+
+// sharedNoShallowCopy is the deep-copy rule for the cloner: a clone is never
+// initialised by copying a whole struct that has slice, map, pointer or
+// interface fields from the original (*clone = *orig), because the copy shares
+// the original's backing arrays and pooled parts; the later field-by-field
+// work then writes into memory the original still uses.
+func sharedNoShallowCopy(c *an.Ctx, rule string, prefix string) (examined int) {
+	for _, fn := range c.AllFns {
+		if fn.Blocks == nil || c.IsTestFile(fn.Pos()) || !strings.HasPrefix(an.FnKey(fn), prefix) {
+			continue
+		}
+		k := an.FnKey(fn)
+		an.Instrs(fn, func(in ssa.Instruction) {
+			st, ok := in.(*ssa.Store)
+			if !ok {
+				return
+			}
+			ld, ok := st.Val.(*ssa.UnOp)
+			if !ok || ld.Op != token.MUL {
+				return
+			}
+			if _, isStruct := ld.Type().Underlying().(*types.Struct); !isStruct {
+				return
+			}
+			if _, fromLocal := ld.X.(*ssa.Alloc); fromLocal {
+				return
+			}
+			// a temporary that a constructor has just returned is not shared with anything
+			if _, fresh := an.Unwrap(ld.X).(*ssa.Call); fresh {
+				return
+			}
+			if al, toLocal := st.Addr.(*ssa.Alloc); toLocal && !al.Heap {
+				return
+			}
+			examined++
+			c.Analysed(k)
+			key := fmt.Sprintf("%s copies a whole %s", k, an.TypeName(ld.Type()))
+			if hasRefFields(ld.Type(), 0) {
+				c.Bad(rule, key, st.Pos(), "a struct with slice / pointer fields is copied as a whole from the original: the copy shares the original's backing arrays and pooled parts, so releasing or re-filling one message changes the other")
+			} else {
+				c.Ok(rule, key, st.Pos(), "the struct has no fields through which memory could be shared")
+			}
+		})
+	}
+	return examined
+}
